@@ -39,7 +39,7 @@ def shape(s):
 
 def prefixes(tier, rnd):
     """yield (class, message_text, wrap) ; wrap None or ('target'|'kv'|'arg') for ref-like text elsewhere."""
-    L = 3 if tier == "quick" else 5
+    L = 4 if tier == "quick" else 5
     for n in range(0, L + 1):
         for tup in itertools.product(SIGMA, repeat=n):
             w = "".join(tup)
@@ -191,7 +191,7 @@ def main(tier):
     ck.extra["files"] = len(jobs)
     for res in frame.pmap(work, jobs):
         ck.absorb(res)
-    L = 3 if tier == "quick" else 5
+    L = 4 if tier == "quick" else 5
     ck.exhaustive = True
     ck.extra["sigma"] = SIGMA
     ck.extra["max_len"] = L
